@@ -81,6 +81,26 @@ func rebuildEquivalence(x *SeqCtx, step int, names []string) *Violation {
 	if d := DiffTrees("live", "rebuilt", live, rb, nil); len(d) > 0 {
 		return &Violation{Prop: prop, Oracle: "rebuild-differs", Step: step, Detail: strings.Join(d, "; ")}
 	}
+	// the root directory's own name
+	rootName := func(st *Stack) string {
+		fi, err := st.FS.Stat("/")
+		if err != nil {
+			return "ERR"
+		}
+		return fi.Name()
+	}
+	if !x.Relax["root-name"] {
+		rbs, err := x.W.Open(OpenOpts{Index: x.W.NewIndexPath()})
+		if err == nil {
+			a, b := rootName(x.St), rootName(rbs)
+			rbs.Close()
+			if a != b {
+				return &Violation{Prop: prop, Oracle: "root-name-differs", Step: step, Detail: fmt.Sprintf("Stat(\"/\").Name() is %q on the live instance and %q after a rebuild", a, b)}
+			}
+		} else if rbs != nil {
+			rbs.Close()
+		}
+	}
 	if len(lp) != len(rp) || len(lp) != len(bp) {
 		return &Violation{Prop: prop, Oracle: "walk-problems-differ", Step: step, Detail: fmt.Sprintf("live=%v reopened=%v rebuilt=%v", lp, rp, bp)}
 	}
